@@ -2432,6 +2432,18 @@ impl Compiler {
 
         let lhs_node = ctx.node(lhs);
         if let Node::Chain(chain_node) = lhs_node {
+            // The chain's value gets accessed via the result register, so if the rhs is a local
+            // that's also the assignment target then it needs to be copied first.
+            // e.g. `a = (x[0] += a)`
+            let rhs_is_result_register = Some(rhs_register) == result.register;
+            let rhs_register = if rhs_is_result_register {
+                let rhs_copy = self.push_register()?;
+                self.push_op(Op::Copy, &[rhs_copy, rhs_register]);
+                rhs_copy
+            } else {
+                rhs_register
+            };
+
             // Place the chain's result the result register
             // e.g. `x[0] += 1` - The new value of x[0] should end up in the result register
             self.compile_chain(
@@ -2441,6 +2453,10 @@ impl Compiler {
                 Some(op),
                 ctx.with_fixed_register_or_none(result.register),
             )?;
+
+            if rhs_is_result_register {
+                self.pop_register()?; // rhs_copy
+            }
         } else {
             let lhs = self.compile_node(lhs, ctx.with_any_register())?;
             let lhs_register = lhs.unwrap(self)?;
